@@ -542,6 +542,14 @@ func (st *tunnelServerStream) readMsgLocked() (data []byte, ok bool, err error) 
 			if halfClosedErr := st.halfClosed.Load(); halfClosedErr != nil {
 				err = halfClosedErr.error
 			}
+			if err == nil {
+				// The receiver was cancelled (stream context ended) before a
+				// half-close was recorded. Never report that as a successful
+				// read of an empty message.
+				if err = st.ctx.Err(); err == nil {
+					err = context.Canceled
+				}
+			}
 			return nil, true, err
 		}
 
